@@ -17,6 +17,8 @@ func main() {
 	sub := os.Args[1]
 	args := os.Args[2:]
 	switch sub {
+	case "keys":
+		cmdKeys(args)
 	case "denom":
 		cmdDenom(args)
 	default:
